@@ -1,5 +1,6 @@
 import DoitModel.Proofs.C19Walk
 import DoitModel.Proofs.C19Trace
+import DoitModel.Proofs.C19FwdWalk
 /-! # C19: consequences of `Inv19` + the counting invariant `Inv3`: exactly one final report, matching `run_status` -/
 namespace DoitModel.Report
 open DoitModel.Run
@@ -37,7 +38,9 @@ def reportFor (n : Name) : RS → Ev → Prop
 
 /-- every task has no final report while it is unprocessed / selected / running, and exactly one, the one matching
     its `run_status`, once it is finished -/
-theorem one_final_report {inp : RunInput} {s : Sys} (h : Inv19 inp s) (h2 : Inv2 inp s) (h3 : Inv3 inp s) (n : Name) :
+theorem one_final_report_core {inp : RunInput} {s : Sys}
+    (hfl : ∀ n, stOf s n = .fail → ∃ k, Ev.failure n k ∈ s.events) (hig : ∀ n, stOf s n = .ign → Ev.skipIgn n ∈ s.events)
+    (h2 : Inv2 inp s) (h3 : Inv3 inp s) (n : Name) :
     ((stOf s n).finished = false → s.events.filter (Ev.isTerminalOf n) = []) ∧
     ((stOf s n).finished = true → ∃ e, s.events.filter (Ev.isTerminalOf n) = [e] ∧ reportFor n (stOf s n) e) := by
   constructor
@@ -53,10 +56,15 @@ theorem one_final_report {inp : RunInput} {s : Sys} (h : Inv19 inp s) (h2 : Inv2
     | run => rw [hst] at hf; cases hf
     | ok => exact ⟨_, filter_singleton hc ((h2.g n).1 hst) (by simp [Ev.isTerminalOf]), rfl⟩
     | utd => exact ⟨_, filter_singleton hc ((h2.g n).2 hst) (by simp [Ev.isTerminalOf]), rfl⟩
-    | ign => exact ⟨_, filter_singleton hc (h.ig n hst) (by simp [Ev.isTerminalOf]), rfl⟩
+    | ign => exact ⟨_, filter_singleton hc (hig n hst) (by simp [Ev.isTerminalOf]), rfl⟩
     | fail =>
-      obtain ⟨k, hk⟩ := h.fl n hst
+      obtain ⟨k, hk⟩ := hfl n hst
       exact ⟨_, filter_singleton hc hk (by simp [Ev.isTerminalOf]), ⟨k, rfl⟩⟩
+
+theorem one_final_report {inp : RunInput} {s : Sys} (h : Inv19 inp s) (h2 : Inv2 inp s) (h3 : Inv3 inp s) (n : Name) :
+    ((stOf s n).finished = false → s.events.filter (Ev.isTerminalOf n) = []) ∧
+    ((stOf s n).finished = true → ∃ e, s.events.filter (Ev.isTerminalOf n) = [e] ∧ reportFor n (stOf s n) e) :=
+  one_final_report_core h.fl h.ig h2 h3 n
 
 /-- when no task is in the state `run` (selected / executing) every announced task has its final report -/
 theorem all_reported {inp : RunInput} {s : Sys} (h : Inv19 inp s) (hp : inp.runner ≠ .process)
